@@ -265,18 +265,26 @@ def run_trial(subj: Subject, cycles: list[list[str]], work: Path, own: dict[str,
         probs += compare(subj, out, own)
         # the same object saved again (nothing looked at in between) writes the same file
         again = work / f't{ci}_again.bsp'
-        with _quiet():
-            b.save(os.fspath(again))
-        if again.read_bytes() != out.read_bytes():
-            probs.append(('second-save-differs', 'same object, saved twice'))
+        try:
+            with _quiet():
+                b.save(os.fspath(again))
+            if again.read_bytes() != out.read_bytes():
+                probs.append(('second-save-differs', 'same object, saved twice'))
+        except Exception as e:      # noqa: BLE001
+            probs.append(('save-raises', f'second save of the same object: {type(e).__name__}: {e}'))
         src = out
     # re-read, save without looking: byte-identical file
-    rb = open_bsp(out)
-    out2 = work / 'resave.bsp'
-    with _quiet():
-        rb.save(os.fspath(out2))
-    if cycles and out2.read_bytes() != Path(out).read_bytes():
-        probs.append(('second-save-differs', 're-read and saved without looking'))
+    if cycles:
+        try:
+            rb = open_bsp(out)
+            out2 = work / 'resave.bsp'
+            with _quiet():
+                rb.save(os.fspath(out2))
+            if out2.read_bytes() != Path(out).read_bytes():
+                probs.append(('second-save-differs', 're-read and saved without looking'))
+        except Exception as e:      # noqa: BLE001
+            if not any(k == 'reread-fails' for k, _ in probs):
+                probs.append(('reread-fails', f'{type(e).__name__}: {e}'))
     return probs
 
 
@@ -300,7 +308,9 @@ def make_subject(work: Path, opts: dict, seed: int, tag: str) -> Subject:
     blob, desc = c10_util.synth(random.Random(seed), **o)
     p = work / f'in_{tag}.bsp'
     p.write_bytes(blob)
-    return Subject('synth:' + ','.join(f'{k}={v}' for k, v in sorted(opts.items())) or 'synth:default', p, dict(opts=opts, seed=seed))
+    subj = Subject('synth:' + ','.join(f'{k}={v}' for k, v in sorted(opts.items())) or 'synth:default', p, dict(opts=opts, seed=seed))
+    subj.parts = desc['_parts']
+    return subj
 
 
 def input_tag(opts: dict, fails) -> str:
@@ -476,37 +486,53 @@ def _lnum(lnum: dict, l: str) -> int:
 
 
 def container_check(ck: Ck, subjects: list[Subject], work: Path) -> None:
-    """The file written by BSP.save, decoded by the independent container decoder, holds exactly the lump data,
-    versions, flags and revision of the object; files encoded by the independent encoder are read back exactly."""
+    """Both directions of the container tie.  Read side: a file produced by the independent encoder (harness/c10_util.py)
+    is read by BSP() into exactly the lumps, versions, flags, revision and game lumps that were encoded.  Write side:
+    BSP.save of an untouched object produces byte for byte the file the independent encoder produces for the object's
+    lumps in save's layout (index order, pakfile last, no padding, NUL between game lumps, dummy entry after a
+    compressed last game lump, L4D2 field order)."""
+    from srctools.bsp import BSP_LUMPS
     bad = []
     for subj in subjects:
+        ref = subj.ref
+        parts = getattr(subj, 'parts', None)
+        ck.count('container_cases')
+        if parts is not None:       # read side
+            for idx, (ver, data, comp) in parts['lumps'].items():
+                if idx == 35:
+                    continue
+                got = ref['lumps'][BSP_LUMPS(idx).name]
+                if got != (ver, comp, data):
+                    bad.append((subj.name, 'read', BSP_LUMPS(idx).name, got[:2], (ver, comp), len(got[2]), len(data)))
+            if ref['games'] != parts['games'] or ref['map_revision'] != parts['map_revision'] or ref['version'] != parts['version']:
+                bad.append((subj.name, 'read', 'header or game lumps'))
+            magic, l4d2 = parts['magic'], parts['l4d2']
+        else:
+            blob = subj.path.read_bytes()
+            magic, l4d2 = blob[:4], False
         b = open_bsp(subj.path)
         out = work / 'cont.bsp'
-        with _quiet():
-            b.save(os.fspath(out))
-        dec = c10_util.decode_container(out.read_bytes())
-        ref = subj.ref
-        ck.count('container_decodes')
-        if dec['version'] != ref['version'] or dec['map_revision'] != ref['map_revision']:
-            bad.append((subj.name, 'header', dec['version'], dec['map_revision']))
-        for l, (ver, comp, data) in ref['lumps'].items():
-            from srctools.bsp import BSP_LUMPS
-            d = dec['lumps'][BSP_LUMPS[l].value]
-            if l == 'GAME_LUMP':
-                continue
-            if d['data'] != data or d['version'] != ver or (d['fourcc'] > 0) != (comp and l != 'PAKFILE' and bool(data)) \
-                    or (d['fourcc'] > 0 and d['fourcc'] != len(data)):
-                bad.append((subj.name, l, d['version'], ver, d['fourcc'], len(data), comp))
-        if [(g['id'], g['flags'], g['version'], g['data']) for g in dec['game_lumps']] != ref['games']:
-            bad.append((subj.name, 'game lumps'))
-        ends = sorted((d['offset'], d['offset'] + d['length']) for d in dec['lumps'].values() if d['length'])
-        if any(a[1] > b2[0] for a, b2 in zip(ends, ends[1:])) or (ends and ends[-1][1] > len(out.read_bytes())):
-            bad.append((subj.name, 'overlapping or out-of-file lumps'))
+        try:
+            with _quiet():
+                b.save(os.fspath(out))
+            written = out.read_bytes()
+        except Exception as e:      # noqa: BLE001
+            bad.append((subj.name, 'save raises', f'{type(e).__name__}: {e}'))
+            continue
+        lumps = {BSP_LUMPS[l].value: (ver, data, comp) for l, (ver, comp, data) in ref['lumps'].items()}
+        expect = c10_util.encode_container(magic, ref['version'], l4d2, ref['map_revision'], lumps, ref['games'], align=False)
+        if written != expect:
+            dec = c10_util.decode_container(written)
+            where = next((i for i, (x, y) in enumerate(zip(written, expect)) if x != y), min(len(written), len(expect)))
+            bad.append((subj.name, 'write', f'first difference at byte {where} (sizes {len(written)} / {len(expect)})',
+                        dec.get('error', 'decodes')))
     ck.obligation('correspondence:container', not bad,
-                  f'{len(subjects)} files saved by BSP.save and decoded independently (header, 64 table rows in the right field '
-                  f'order, revision, LZMA sizes, game-lump directory): {len(bad)} problems' + (f' {bad[:3]}' if bad else ''))
+                  f'{len(subjects)} files: BSP() reads independently encoded containers exactly; BSP.save writes byte-identically '
+                  f'what the independent encoder writes (header, 64 table rows in either field order, revision, LZMA sizes, '
+                  f'game-lump directory): {len(bad)} problems' + (f' {bad[:3]}' if bad else ''))
     if bad:
-        ck.tie_broken.append('container written by BSP.save does not decode to the object\'s lumps')
+        ck.tie_broken.append('container: BSP.read / BSP.save disagree with the independent container model')
+        ck.extra['container_problems'] = [list(map(str, x)) for x in bad[:10]]
 
 
 # ================================================================================================ main
@@ -569,7 +595,7 @@ def run(ck: Ck) -> None:
     if built and side:
         corr_files = [default, synth_subjects[0][1], synth_subjects[5][1]] + subjects[:1]
         correspondence(ck, side, corr_files, work)
-        container_check(ck, [s for _, s in synth_subjects[:13]] + subjects[:1], work)
+        container_check(ck, [s for _, s in synth_subjects] + subjects[:1], work)
     tm['inputs+correspondence'] = round(time.time() - t0, 1)
     t0 = time.time()
     # ---------------------------------------------------------------------------- search
@@ -626,6 +652,8 @@ def run(ck: Ck) -> None:
         viewed = '+'.join(sorted({v for c in cyc for v in c})) or 'nothing'
         if opts is None:
             tag = 'file=' + subj.name
+        elif f'{kind}|viewed={viewed}|input:any' in found or fails_with(default, cyc):
+            tag = 'input:any'       # also fails on the default synthesised file
         else:
             def fails(o: dict) -> bool:
                 return fails_with(make_subject(work, o, subj.desc['seed'], 'shrink'), cyc)
@@ -669,6 +697,15 @@ def run(ck: Ck) -> None:
     tm['search_sample_map'] = round(time.time() - t0, 1)
     ck.sample({'input': default.desc, 'cycles': [['faces', 'ents'], ['bmodels']],
                'result': run_trial(default, [['faces', 'ents'], ['bmodels']], work, own) or 'lossless'})
+    # a broken graph obligation that the small search could not turn into a failing history: search harder
+    broken = [o['name'] for o in ck.obligations if not o['ok']]
+    if broken and not found and not ck.thorough:
+        ck.tie_broken.append('obligations failed and the quick search found no failing history: ' + ', '.join(broken))
+        for i in range(1500):
+            opts, s = synth_subjects[rng.randrange(len(synth_subjects))]
+            attempt(s, opts, [rng.sample(VIEWS, rng.choice([1, 2, 3, 5, 9, 14, 21])) for _ in range(rng.choice([1, 1, 2, 3]))])
+            if found:
+                break
     for key, f in found.items():
         ck.violation(key, f'{f["kind"]}: {f["detail"]}', {k: v for k, v in f.items() if k != 'n'})
     ck.extra['violation_keys'] = sorted(found)
